@@ -66,7 +66,8 @@ class Real:
         for d, k in list(net.dests.items()) + list(getattr(net, 'x_dests', {}).items()):
             nm = names.get(("d", d), f"D{d}")
             self.dests[d] = Destination(name=nm) if k == "free" else CongestedDestination(name=nm)
-        self.net = Network()
+        # (a network may be called anything: names with blanks, dashes, leading digits)
+        self.net = Network(name=["ring road A10", "A13-north", "2nd ring", "net_1", "réseau"][len(net.ops) % 5])
         for op in net.ops:
             if reads is not None and reads.random() < 0.5:
                 self.touch()
@@ -170,7 +171,9 @@ class Real:
     def numpy_step(self, sv, opts=None, scalar_shape="vec1", engine=None):
         """returns ({out token: float}, ic)"""
         from harness.nets import opts_kwargs
-        eng = engine or NpEngine()
+        # every variable is supplied by the caller here; whatever the engine creates itself in place of a supplied
+        # value would be "not a number" and show in the results
+        eng = engine or NpEngine(float("nan"))
         ic = self.init_conditions(sv, scalar_shape)
         with np.errstate(all="ignore"):
             self.net.step(init_conditions=ic, engine=eng, **opts_kwargs(opts or {}),
